@@ -29,8 +29,8 @@ func init() {
 		Old: "\tomitSpace := true // on true the next text token must not start with a space\n", New: "\tomitSpace := true // on true the next text token must not start with a space\n\to.KeepWhitespace = o.KeepWhitespace || false\n",
 		Rule: "R13.1", Construct: "xml.(*Minifier).Minify"})
 	mutant(&Mutant{Name: "c13-css-no-copy", Property: "C13", File: "css/css.go",
-		Old: "\ttmp := &Minifier{}\n\t*tmp = *o\n\to = tmp\n\n\to.newPrecision = o.Precision\n\tif o.newPrecision <= 0 || 15 < o.newPrecision {\n\t\to.newPrecision = 15 // minimum number of digits a double can represent exactly\n\t}\n\tif !o.Inline {\n\t\to.Inline = params != nil && params[\"inline\"] == \"1\"\n\t}\n\n\tz := parse.NewInput(r)\n\tdefer z.Restore()\n\n\tc := &cssMinifier{",
-		New: "\to.newPrecision = o.Precision\n\tif o.newPrecision <= 0 || 15 < o.newPrecision {\n\t\to.newPrecision = 15 // minimum number of digits a double can represent exactly\n\t}\n\tif !o.Inline {\n\t\to.Inline = params != nil && params[\"inline\"] == \"1\"\n\t}\n\n\tz := parse.NewInput(r)\n\tdefer z.Restore()\n\n\tc := &cssMinifier{",
+		Old:  "\ttmp := &Minifier{}\n\t*tmp = *o\n\to = tmp\n\n\to.newPrecision = o.Precision\n\tif o.newPrecision <= 0 || 15 < o.newPrecision {\n\t\to.newPrecision = 15 // minimum number of digits a double can represent exactly\n\t}\n\tif !o.Inline {\n\t\to.Inline = params != nil && params[\"inline\"] == \"1\"\n\t}\n\n\tz := parse.NewInput(r)\n\tdefer z.Restore()\n\n\tc := &cssMinifier{",
+		New:  "\to.newPrecision = o.Precision\n\tif o.newPrecision <= 0 || 15 < o.newPrecision {\n\t\to.newPrecision = 15 // minimum number of digits a double can represent exactly\n\t}\n\tif !o.Inline {\n\t\to.Inline = params != nil && params[\"inline\"] == \"1\"\n\t}\n\n\tz := parse.NewInput(r)\n\tdefer z.Restore()\n\n\tc := &cssMinifier{",
 		Rule: "R13.1", Construct: "css.(*Minifier).Minify"})
 	mutant(&Mutant{Name: "c13-global-scratch-buffer", Property: "C13", File: "json/json.go",
 		Old: "\tskipComma := true\n", New: "\tskipComma := true\n\tzeroBytes[0] = '0'\n",
@@ -47,6 +47,9 @@ func init() {
 	mutant(&Mutant{Name: "c13-append-base-resliced", Property: "C13", File: "common.go",
 		Old: "append(dataBytes, ", New: "append(dataBytes[:4], ",
 		Rule: "R13.4", Construct: "dataBytes"})
+	mutant(&Mutant{Name: "c13-shared-scratch-buffer", Property: "C13", File: "json/json.go",
+		Old: "var (\n\tcommaBytes", New: "var scratch = minify.New()\n\nvar (\n\tcommaBytes",
+		Rule: "R13.6", Construct: "json.scratch"})
 	mutant(&Mutant{Name: "c13-env-dependent", Property: "C13", File: "minify.go",
 		Old: "\tmimetype, params := parse.Mediatype([]byte(mediatype))\n\treturn m.MinifyMimetype(", New: "\tif os.Getenv(\"MINIFY_DISABLE\") != \"\" {\n\t\tmediatype = \"\"\n\t}\n\tmimetype, params := parse.Mediatype([]byte(mediatype))\n\treturn m.MinifyMimetype(",
 		Rule: "R13.5", Construct: "minify/no clock"})
@@ -58,6 +61,205 @@ func runC13(c *Ctx) {
 	c.r133()
 	c.r134()
 	c.r135()
+	c.r136()
+}
+
+// R13.6: pooled / shared scratch objects do not escape.
+func (c *Ctx) r136() {
+	const rule = "R13.6"
+	c.R.Rule(rule, "library packages: an object obtained from a sync.Pool (or any package-level pool / free list reached through a method call on a package-level variable) that the function gives back with Put must not be reachable from the function's results or be stored into memory that outlives the call: SSA — no Return operand and no Store value derives (through load, slicing, conversion, φ, type assertion) from the result of (*sync.Pool).Get in a function that also calls (*sync.Pool).Put (directly or deferred). Otherwise the next concurrent or later call rewrites bytes the earlier caller still holds. Also inventories every package-level variable of the library by type: a variable whose type can carry hidden mutable state (sync.*, bytes.Buffer, channels, pointers to structs) other than *regexp.Regexp / *log.Logger / error must be one the escape rule covers")
+	pools, escapes := 0, 0
+	for _, rel := range libPkgs {
+		sp := c.P.SSAPkg(rel)
+		if sp == nil {
+			continue
+		}
+		for _, fn := range allFuncs(sp) {
+			var gets []ssa.Value
+			puts := false
+			for _, b := range fn.Blocks {
+				for _, ins := range b.Instrs {
+					ci, ok := ins.(ssa.CallInstruction)
+					if !ok {
+						continue
+					}
+					callee := ci.Common().StaticCallee()
+					if callee == nil {
+						continue
+					}
+					switch callee.String() {
+					case "(*sync.Pool).Get":
+						if v, ok := ins.(ssa.Value); ok {
+							gets = append(gets, v)
+						}
+					case "(*sync.Pool).Put":
+						puts = true
+					}
+				}
+			}
+			if len(gets) == 0 {
+				continue
+			}
+			pools++
+			fromPool := func(v ssa.Value) bool {
+				seen := map[ssa.Value]bool{}
+				var walk func(v ssa.Value) bool
+				walk = func(v ssa.Value) bool {
+					if v == nil || seen[v] {
+						return false
+					}
+					seen[v] = true
+					for _, g := range gets {
+						if v == g {
+							return true
+						}
+					}
+					switch x := v.(type) {
+					case *ssa.TypeAssert:
+						return walk(x.X)
+					case *ssa.UnOp:
+						if a, isAlloc := x.X.(*ssa.Alloc); isAlloc {
+							// local cell (e.g. a result spilled because of defer): what was stored into it
+							for _, r := range *a.Referrers() {
+								if st, ok := r.(*ssa.Store); ok && st.Addr == ssa.Value(a) && walk(st.Val) {
+									return true
+								}
+							}
+							return false
+						}
+						return walk(x.X)
+					case *ssa.Slice:
+						return walk(x.X)
+					case *ssa.ChangeType:
+						return walk(x.X)
+					case *ssa.Convert:
+						return walk(x.X)
+					case *ssa.FieldAddr:
+						return walk(x.X)
+					case *ssa.IndexAddr:
+						return walk(x.X)
+					case *ssa.Extract:
+						return walk(x.Tuple)
+					case *ssa.Phi:
+						for _, e := range x.Edges {
+							if walk(e) {
+								return true
+							}
+						}
+					case *ssa.Call:
+						// append(pooled, …) may return the pooled array
+						if bi, ok := x.Call.Value.(*ssa.Builtin); ok && bi.Name() == "append" {
+							return walk(x.Call.Args[0])
+						}
+					}
+					return false
+				}
+				return walk(v)
+			}
+			var bad []string
+			for _, b := range fn.Blocks {
+				for _, ins := range b.Instrs {
+					switch x := ins.(type) {
+					case *ssa.Return:
+						for _, r := range x.Results {
+							if isRefType(r.Type()) && fromPool(r) {
+								bad = append(bad, "a result returned at "+c.P.Pos(x.Pos())+" aliases the pooled object")
+							}
+						}
+					case *ssa.Store:
+						// storing the pooled object (or a slice of it) anywhere but back into itself / locals
+						if _, isAlloc := x.Addr.(*ssa.Alloc); isAlloc {
+							continue
+						}
+						if isRefType(x.Val.Type()) && fromPool(x.Val) && !fromPool(x.Addr) {
+							bad = append(bad, "the pooled object is stored into longer-lived memory at "+c.P.Pos(x.Pos()))
+						}
+					}
+				}
+			}
+			if len(bad) > 0 && puts {
+				escapes++
+			}
+			c.R.Check(len(bad) == 0 || !puts, rule, fnName(fn)+"/pooled object does not escape", c.P.Pos(fn.Pos()), "no result or stored value aliases an object that is put back",
+				"the function hands an object back to a sync.Pool while "+strings.Join(bad, "; ")+": a concurrent or later call reuses the buffer and overwrites what this call's caller is still reading")
+		}
+	}
+	c.R.Note("R13.6: %d functions use a sync.Pool, %d let a pooled object escape", pools, escapes)
+	// inventory of package-level variables by type class
+	risky := 0
+	for _, rel := range libPkgs {
+		pk := c.P.Pkg(rel)
+		if pk == nil {
+			continue
+		}
+		scope := pk.Types.Scope()
+		for _, name := range scope.Names() {
+			v, ok := scope.Lookup(name).(*types.Var)
+			if !ok {
+				continue
+			}
+			cls := stateClass(v.Type(), 0)
+			if cls == "data" {
+				continue
+			}
+			risky++
+			construct := pk.Name + "." + name + " (" + types.TypeString(v.Type(), func(p *types.Package) string { return p.Name() }) + ")"
+			switch cls {
+			case "pool":
+				c.R.Exists(rule, construct, c.P.Pos(v.Pos()), "sync.Pool: every user is checked by the escape rule above")
+			case "handle":
+				c.R.Exists(rule, construct, c.P.Pos(v.Pos()), "immutable-after-init handle (*regexp.Regexp / *log.Logger / error)")
+			default:
+				c.R.Bad(rule, construct, c.P.Pos(v.Pos()), "package-level variable of a type that can carry mutable state shared by all calls ("+cls+"); no rule of this check covers its use — shared scratch state breaks concurrent use of the registry")
+			}
+		}
+	}
+	c.R.Exists(rule, "inventory of stateful package-level variables", "-", fmt.Sprintf("%d non-data variables", risky))
+}
+
+// stateClass classifies a package-level variable's type: data (values, byte slices, tables), handle, pool, or a description of the risk.
+func stateClass(t types.Type, depth int) string {
+	if depth > 4 {
+		return "data"
+	}
+	switch ts := types.TypeString(t, nil); ts {
+	case "*regexp.Regexp", "*log.Logger", "error":
+		return "handle"
+	case "sync.Pool", "*sync.Pool":
+		return "pool"
+	}
+	switch u := t.Underlying().(type) {
+	case *types.Basic:
+		return "data"
+	case *types.Slice:
+		return stateClass(u.Elem(), depth+1)
+	case *types.Array:
+		return stateClass(u.Elem(), depth+1)
+	case *types.Map:
+		if k := stateClass(u.Key(), depth+1); k != "data" {
+			return k
+		}
+		return stateClass(u.Elem(), depth+1)
+	case *types.Struct:
+		if n, ok := t.(*types.Named); ok && n.Obj().Pkg() != nil && (n.Obj().Pkg().Path() == "sync" || n.Obj().Pkg().Path() == "sync/atomic" || n.Obj().Pkg().Path() == "bytes" || n.Obj().Pkg().Path() == "strings") {
+			return "stateful " + n.Obj().Pkg().Name() + "." + n.Obj().Name()
+		}
+		for i := 0; i < u.NumFields(); i++ {
+			if cls := stateClass(u.Field(i).Type(), depth+1); cls != "data" {
+				return cls
+			}
+		}
+		return "data"
+	case *types.Pointer:
+		return "pointer to " + types.TypeString(u.Elem(), nil)
+	case *types.Chan:
+		return "channel"
+	case *types.Signature:
+		return "data"
+	case *types.Interface:
+		return "interface value"
+	}
+	return "data"
 }
 
 // R13.1
